@@ -1149,12 +1149,12 @@ def skip_consumes(P):
     from common import Reporter as _R
     scan, effects, n = rules_C08.scan_table(P, _R("C16", "quick", "other", "x"))
     for mode, ents in scan.items():
-        for cls, cz, act in ents:
+        for cls, cz, act, wf in ents:
             if act[0] not in ("cont", "this", "next", "none"):
                 return False
     # NewLine mode: returns iter.next() itself (consumes or None); EndFile: None
-    nl = {a[0] for c, z, a in scan.get("NewLine", [])}
-    ef = {a[0] for c, z, a in scan.get("EndFile", [])}
+    nl = {a[0] for c, z, a, w in scan.get("NewLine", [])}
+    ef = {a[0] for c, z, a, w in scan.get("EndFile", [])}
     return nl == {"next"} and ef == {"none"}
 
 
@@ -1545,6 +1545,11 @@ def preconditions(P, rep, reach):
                 c = const_int(t["args"][1]) if len(t["args"]) > 1 else None
                 ok = c is not None and 2 <= c <= 36
                 why = "the radix is the constant %s (within 2..=36)" % c if ok else "the radix is not a constant within 2..=36"
+            elif nm in ("to_digit", "is_digit", "from_digit"):
+                # char::to_digit / is_digit / from_digit panic for a radix above 36
+                c = const_int(t["args"][1]) if len(t["args"]) > 1 else None
+                ok = c is not None and c <= 36
+                why = "the radix is the constant %s (at most 36)" % c if ok else "the radix is not a constant of at most 36"
             elif rp.startswith("<byteorder::") and nm.startswith("write_u"):
                 need = {"write_u16": 2, "write_u32": 4, "write_u64": 8, "write_u128": 16}.get(nm)
                 # the buffer is  &mut [T; N] as &mut [T]  of a local array
